@@ -28,3 +28,88 @@ Theorem C15_consistent_order_sorts :
   inv (ev_lt st) l <= fuel ->
   exists l', bubble_sort fuel st l = Ok l' /\ Permutation l l' /\ desc (ev_lt st) l'.
 Proof. exact bubble_sort_terminates_asym. Qed.
+
+From GB Require Import NumLaws EventOrder.
+
+(** "by x, then y, then right-before-left": for every instance whose coordinate comparisons
+    satisfy the order laws ([Gt] = processed earlier) *)
+Theorem C15_by_x :
+  forall (N : Num) (L : NumLaws N) (st : store N) (a b : eid),
+  okev N L st a -> okev N L st b ->
+  ltX N (px (e_point (getE st a))) (px (e_point (getE st b))) = true ->
+  cmp_events st a b = Gt /\ cmp_events st b a = Lt.
+Proof. exact cmp_events_by_x. Qed.
+
+Theorem C15_by_y :
+  forall (N : Num) (L : NumLaws N) (st : store N) (a b : eid),
+  okev N L st a -> okev N L st b ->
+  ltX N (px (e_point (getE st a))) (px (e_point (getE st b))) = false ->
+  ltX N (px (e_point (getE st b))) (px (e_point (getE st a))) = false ->
+  ltY N (py (e_point (getE st a))) (py (e_point (getE st b))) = true ->
+  cmp_events st a b = Gt /\ cmp_events st b a = Lt.
+Proof. exact cmp_events_by_y. Qed.
+
+Theorem C15_right_before_left :
+  forall (N : Num) (st : store N) (a b : eid),
+  ltX N (px (e_point (getE st a))) (px (e_point (getE st b))) = false ->
+  ltX N (px (e_point (getE st b))) (px (e_point (getE st a))) = false ->
+  ltY N (py (e_point (getE st a))) (py (e_point (getE st b))) = false ->
+  ltY N (py (e_point (getE st b))) (py (e_point (getE st a))) = false ->
+  e_left (getE st a) = false -> e_left (getE st b) = true ->
+  cmp_events st a b = Gt /\ cmp_events st b a = Lt.
+Proof. exact cmp_events_right_before_left. Qed.
+
+(** "then angular", exact instance: two events at one point with equal left flags whose
+    partners are not collinear with the point are ordered antisymmetrically by orientation;
+    collinear partners of different operands by the operand; collinear partners of ONE
+    operand are the only gap (not a valid input) *)
+From Coq Require Import QArith.
+From GB Require Import NumQ EventOrderQ.
+
+Theorem C15_angular_antisym :
+  forall (st : store NQ) (a b oa ob : eid) (xa ya xb yb oax oay obx oby : Q),
+  e_point (getE st a) = mkPt NQ (QF xa) (QF ya) -> e_point (getE st b) = mkPt NQ (QF xb) (QF yb) ->
+  xa == xb -> ya == yb ->
+  e_other (getE st a) = Some oa -> e_other (getE st b) = Some ob ->
+  e_point (getE st oa) = mkPt NQ (QF oax) (QF oay) -> e_point (getE st ob) = mkPt NQ (QF obx) (QF oby) ->
+  e_left (getE st a) = e_left (getE st b) ->
+  qx_orient (QF xa) (QF ya) (QF oax) (QF oay) (QF obx) (QF oby) <> Eq ->
+  cmp_events st b a = CompOpp (cmp_events st a b).
+Proof. exact cmp_events_angular_antisym. Qed.
+
+Theorem C15_collinear_antisym :
+  forall (st : store NQ) (a b oa ob : eid) (xa ya xb yb oax oay obx oby : Q),
+  e_point (getE st a) = mkPt NQ (QF xa) (QF ya) -> e_point (getE st b) = mkPt NQ (QF xb) (QF yb) ->
+  xa == xb -> ya == yb ->
+  e_other (getE st a) = Some oa -> e_other (getE st b) = Some ob ->
+  e_point (getE st oa) = mkPt NQ (QF oax) (QF oay) -> e_point (getE st ob) = mkPt NQ (QF obx) (QF oby) ->
+  e_left (getE st a) = e_left (getE st b) ->
+  qx_orient (QF xa) (QF ya) (QF oax) (QF oay) (QF obx) (QF oby) = Eq ->
+  e_is_subject (getE st a) <> e_is_subject (getE st b) ->
+  cmp_events st b a = CompOpp (cmp_events st a b).
+Proof. exact cmp_events_collinear_antisym. Qed.
+
+Theorem C15_only_gap :
+  forall (st : store NQ) (a b oa ob : eid) (xa ya xb yb oax oay obx oby : Q),
+  e_point (getE st a) = mkPt NQ (QF xa) (QF ya) -> e_point (getE st b) = mkPt NQ (QF xb) (QF yb) ->
+  xa == xb -> ya == yb ->
+  e_other (getE st a) = Some oa -> e_other (getE st b) = Some ob ->
+  e_point (getE st oa) = mkPt NQ (QF oax) (QF oay) -> e_point (getE st ob) = mkPt NQ (QF obx) (QF oby) ->
+  e_left (getE st a) = e_left (getE st b) ->
+  qx_orient (QF xa) (QF ya) (QF oax) (QF oay) (QF obx) (QF oby) = Eq ->
+  e_is_subject (getE st a) = e_is_subject (getE st b) ->
+  cmp_events st a b = Gt /\ cmp_events st b a = Gt.
+Proof. exact cmp_events_gap. Qed.
+
+(** the segment order, every instance: Equal exactly for the identical segment; antisymmetric
+    as soon as the event order decides which of the two left events comes first *)
+From GB Require Import SegOrder.
+Theorem C15_segment_order_equal_iff_same :
+  forall (N : Num) (st : store N) (a b : eid), compare_segments st a b = Eq <-> a = b.
+Proof. exact compare_segments_eq_iff. Qed.
+
+Theorem C15_segment_order_antisym :
+  forall (N : Num) (st : store N) (a b : eid),
+  a <> b -> is_before st b a = negb (is_before st a b) ->
+  compare_segments st b a = CompOpp (compare_segments st a b).
+Proof. exact compare_segments_antisym. Qed.
